@@ -75,6 +75,7 @@ type sys struct {
 	bad       []string // violations raised inside service goroutines, reported by the next Apply
 	backoffs  []time.Duration
 	sup       *supervisor.VerifSupervisor
+	sinceGC   []string          // tree events since the last GC tick (what the next restart scan has to look at)
 	failedAt  map[string][2]int // dn -> (sleeper releases, parent incarnation) at the time it failed with a live context
 	releases  int
 }
@@ -194,6 +195,11 @@ func newSys(cfg *config) *sys {
 			s.alphabet = append(s.alphabet, "fail:"+sv.DN+":"+k)
 		}
 		s.alphabet = append(s.alphabet, "notice:"+sv.DN)
+		if sv.Done {
+			// a one-shot service whose context was cancelled (an ancestor or group member died) finishes its work
+			// anyway: signals Done and returns nil instead of returning the context's error
+			s.alphabet = append(s.alphabet, "finish:"+sv.DN)
+		}
 	}
 	s.alphabet = append(s.alphabet, "gc", "release", "cancel")
 	s.sup = supervisor.New(ctx, zap.NewNop(), s.body("root"), opts...)
@@ -298,6 +304,13 @@ func (s *sys) Enabled() []int {
 					break
 				}
 			}
+		case "finish":
+			for _, in := range s.running() {
+				if in.dn == p[1] && in.ctx.Err() != nil && nextSetup(s.cfg.spec(p[1]), in) == "done" {
+					out = append(out, i)
+					break
+				}
+			}
 		case "gc":
 			if !s.cancelled {
 				out = append(out, i)
@@ -341,11 +354,19 @@ func (s *sys) do(a string) {
 				break
 			}
 		}
+	case "finish":
+		for _, in := range s.running() {
+			if in.dn == p[1] && in.ctx.Err() != nil && nextSetup(s.cfg.spec(p[1]), in) == "done" {
+				in.cmd <- "done"
+				break
+			}
+		}
 	case "gc":
 		for _, w := range vtime.Find("ticker", "processor") {
 			w.Fire()
 		}
 		s.dirty = false
+		s.sinceGC = nil
 	case "release":
 		s.mu.Lock()
 		s.releases++
@@ -360,6 +381,7 @@ func (s *sys) do(a string) {
 	}
 	if p[0] != "gc" {
 		s.dirty = true
+		s.sinceGC = append(s.sinceGC, a)
 	}
 	s.quiesce()
 }
@@ -452,7 +474,13 @@ func (s *sys) Key() string {
 		ks = append(ks, fmt.Sprintf("%s#%d[%s]last=%s", sv.DN, inc, strings.Join(st, ","), s.lastExit[sv.DN]))
 	}
 	s.mu.Unlock()
-	return fmt.Sprintf("%s|sleepers=%d|dirty=%v|cancelled=%v", strings.Join(ks, ";"), len(vtime.Find("sleep", "")), s.dirty, s.cancelled)
+	// the supervisor's own "something changed since the last scan" flag is a local variable of its loop: the
+	// key carries what it can depend on - the (last four) tree events since the last GC tick
+	pend := s.sinceGC
+	if len(pend) > 4 {
+		pend = pend[len(pend)-4:]
+	}
+	return fmt.Sprintf("%s|sleepers=%d|since-gc=%s|cancelled=%v", strings.Join(ks, ";"), len(vtime.Find("sleep", "")), strings.Join(pend, ","), s.cancelled)
 }
 
 // closing: fair schedule. With the context live every service of the tree must end up running
@@ -560,6 +588,8 @@ func configs() []config {
 		{Name: "root-(a(done),b)", Services: []svc{S("root", false, g("a", "b")), S("root.a", true), S("root.b", false)}},
 		{Name: "root(done)-a-b", Services: []svc{S("root", true, g("a")), S("root.a", false, g("b")), S("root.a.b", false)}},
 		{Name: "root-a(done)-b", Services: []svc{S("root", false, g("a")), S("root.a", true, g("b")), S("root.a.b", false)}},
+		{Name: "root-a-b(done)", Services: []svc{S("root", false, g("a")), S("root.a", false, g("b")), S("root.a.b", true)}},
+		{Name: "root-a-(b(done),c)", Services: []svc{S("root", false, g("a")), S("root.a", false, g("b", "c")), S("root.a.b", true), S("root.a.c", false)}},
 	}
 	np := out[3]
 	np.Name, np.NoPanic = "root-a-b/propagate-panic", true
@@ -645,6 +675,46 @@ func main() {
 		r.Add("traces_validated_against_impl", st.Builds)
 		if st.Capped {
 			r.Cap(fmt.Sprintf("state cap in %s (BFS complete to depth %d)", c.Name, st.MaxDepth-1))
+		}
+		// (c) trees with one-shot services: from the state in which everything is up and the one-shot services
+		// are healthy but still busy (their Done is the next step)
+		hasDone := false
+		for _, sv := range c.Services {
+			hasDone = hasDone || sv.Done
+		}
+		if hasDone {
+			var busy []int
+			s := newSys(c)
+			for {
+				stepped := false
+				for _, e := range s.Enabled() {
+					a := s.alphabet[e]
+					if strings.HasPrefix(a, "step:") {
+						dn := a[5:]
+						if nextSetup(c.spec(dn), s.current(dn)) == "done" {
+							continue
+						}
+						busy = append(busy, e)
+						s.Apply(e, busy, false)
+						stepped = true
+						break
+					}
+				}
+				if !stepped {
+					break
+				}
+			}
+			s.Close()
+			stc := mc.BFS(func() mc.Sys { return newSys(c) }, busy, r.Pick(5, 7), r.Pick(8000, 80000), closing(c))
+			r.Add("states", stc.States)
+			r.Add("transitions", stc.Transitions)
+			r.Add("traces_validated_against_impl", stc.Builds)
+			if os.Getenv("VERIF_VERBOSE") != "" {
+				fmt.Fprintf(os.Stderr, "%s busy-prefix=%v states=%d transitions=%d maxdepth=%d capped=%v\n", c.Name, busy, stc.States, stc.Transitions, stc.MaxDepth, stc.Capped)
+			}
+			if stc.Capped {
+				r.Cap(fmt.Sprintf("state cap in %s, busy one-shot prefix (BFS complete to depth %d)", c.Name, stc.MaxDepth-1))
+			}
 		}
 		r.Sample(map[string]interface{}{"tree": c.Name, "depth": depth, "max_depth_reached": st.MaxDepth, "states": st.States, "transitions": st.Transitions})
 		if os.Getenv("VERIF_VERBOSE") != "" {
